@@ -100,7 +100,7 @@ def run(names, seqs, cfg, entry, infmt="fasta", inseed=0):
               "kindletter": "P" if gen.expected_kind(seqs) == "protein" else "N"}
         fp = wd.write(present.render_chunk(names, seqs, ch).encode("latin-1"), ".in")
     else:
-        fp = wd.write(kal.fasta_bytes(names, seqs), ".fa")
+        fp = wd.write(kal.fasta_bytes(names, seqs, layout=kal.auto_layout(names, seqs)), ".fa")
     if entry == "lib":
         r = kal.run_files([fp], cfg)
         if r["read_rcs"] != [0] or r["run_rc"] != 0 or r["msa"] is None:
